@@ -40,6 +40,10 @@ impl TokenInner {
         self.id as usize
     }
 
+    pub(crate) fn get_sub_id(self) -> u16 {
+        self.sub_id
+    }
+
     pub(crate) fn same_source_as(self, other: TokenInner) -> bool {
         self.id == other.id && self.version == other.version
     }
